@@ -49,6 +49,9 @@ class _:
     params = {"self": FH, "offset": INT, "whence": INT}
     defaults = {"whence": 0}
     result = NONE
+    # only absolute (0) and relative-to-cursor (1) seeks are modelled; a seek relative to the end of the file (2) is
+    # outside the model and therefore an unprovable precondition
+    requires = staticmethod(lambda o: [("whence-0-or-1", z3.Or(o.whence == 0, o.whence == 1))])
     modifies = staticmethod(lambda o: [("field", "FastaFH", "pos", o.self)])
     ensures = staticmethod(lambda o, n, res: n.self.pos == z3.If(o.whence == 0, o.offset, o.self.pos + o.offset))
 
